@@ -14,7 +14,7 @@ from ..core.registry import ProofDef, ProofResult, register
 from ..csym import genc, interp as CI
 from ..pysym import engine as EN
 from ..spec import layout as L
-from ..templates import family
+from ..templates import build, family
 
 RUNTIME = "lib/c/bitproto.c"
 RENDER_C = "compiler/bitproto/renderer/impls/c/renderer_c.py"
@@ -22,11 +22,11 @@ RENDER_C = "compiler/bitproto/renderer/impls/c/renderer_c.py"
 # variant -> (optimize, --endian, big-endian target?, property tags)
 VARIANTS = {
     "std[le]": (False, "both", False, ["C03", "C07", "C11", "C12", "C14", "C16"]),
-    "std[be]": (False, "both", True, ["C06", "C14"]),
+    "std[be]": (False, "both", True, ["C06", "C07", "C14"]),
     "opt[both,le]": (True, "both", False, ["C04", "C07", "C14"]),
     "opt[both,be]": (True, "both", True, ["C04", "C06", "C14"]),
     "opt[little]": (True, "little", False, ["C04"]),
-    "opt[big]": (True, "big", True, ["C04", "C06"]),
+    "opt[big]": (True, "big", True, ["C04", "C06", "C07"]),
 }
 
 
@@ -172,3 +172,87 @@ def _mk_pair(name, s1, m1, s2, m2, project, big):
 for _pair in family.evolution_pairs():
     _mk_pair(*_pair, big=False)
     _mk_pair(*_pair, big=True)
+
+
+# ------------------------------------------------------------------ C17: -F restricts, never alters (per program, textual)
+import re as _re
+
+
+def _functions(text: str, lang: str):
+    """{name: full text} of the top-level function definitions of a generated .c / .go file (a definition ends at the first `}` in
+    column 0)"""
+    out = {}
+    pat = r"^(?:int|void) (\w+)\([^;{]*\)\s*\{\n.*?^\}" if lang == "c" else r"^func \(m \*?(\w+)\) (\w+)\([^{\n]*\{(?:[^\n]*\}$|\n.*?^\})"
+    for m in _re.finditer(pat, text, _re.M | _re.S):
+        name = m.group(1) if lang == "c" else "%s.%s" % (m.group(1), m.group(2))
+        out[name] = m.group(0)
+    return out
+
+
+def _mk_filter(u: family.Unit, lang: str):
+    pid = "gen-%s:filter:%s" % (lang, u.name)
+
+    def run(concrete=None, only=None) -> ProofResult:
+        res = ProofResult(pid=pid, obls=[])
+        try:
+            schema, msgs = traditional(u)
+            tops = [m for m in schema.defs if isinstance(m, L.Message)]
+            E = EN.Engine(pid, "generated %s -O with and without -F of %s" % (lang, schema.fname()), RENDER_C, ["C17"], scope="program")
+            E.concrete = concrete
+            main = schema.fname().replace(".bitproto", "_bp")
+
+            def body():
+                endians = ("both", "big") if lang == "c" else ("both",)
+                for endian in endians:
+                    full = build.compile_schema_cli(schema, lang, optimize=True, endian=endian)
+                    src = [t for fn, t in full.items() if fn.endswith("." + lang)][0]
+                    f_all = _functions(src, lang)
+                    codec = lambda n: (("Encode" + n, "Decode" + n) if lang == "c" else (n + ".Encode", n + ".Decode"))
+                    names = ["".join(w[:1].upper() + w[1:] for w in m.name.split("_")) if lang == "go" else genc.c_struct_name(m) for m in tops]
+                    E.oblige("unfiltered/%s/every-message-has-both-functions" % endian,
+                             z3.BoolVal(all(c in f_all for n in names for c in codec(n))))
+                    for sel, selname in zip(tops, names):
+                        part = build.compile_schema_cli(schema, lang, optimize=True, endian=endian, filter_messages=[sel.name])
+                        psrc = [t for fn, t in part.items() if fn.endswith("." + lang)][0]
+                        f_sel = _functions(psrc, lang)
+                        tag = "-F %s/%s" % (sel.name, endian)
+                        for c in codec(selname):
+                            E.oblige("%s/%s-textually-identical" % (tag, c), z3.BoolVal(c in f_sel and f_sel[c] == f_all.get(c)))
+                        is_codec = (lambda k: k.startswith(("Encode", "Decode"))) if lang == "c" else (lambda k: k.endswith((".Encode", ".Decode")))
+                        # exactly the NAMED message gets them (messages nested in it are messages of their own and were not named)
+                        E.oblige("%s/no-function-for-unselected" % tag,
+                                 z3.BoolVal(sorted(k for k in f_sel if is_codec(k)) == sorted(codec(selname))))
+                        # everything that is not an encoder / decoder stays: same remaining functions, same declarations
+                        rest_all = {k: v for k, v in f_all.items() if not is_codec(k)}
+                        rest_sel = {k: v for k, v in f_sel.items() if not is_codec(k)}
+                        E.oblige("%s/other-functions-unchanged" % tag, z3.BoolVal(rest_all == rest_sel))
+                        if lang == "c":
+                            decl = lambda t: [l for l in t.splitlines() if l.startswith(("struct ", "#define ", "typedef ", "enum ")) or l.startswith("    ")]
+                            h_all = [t for fn, t in full.items() if fn.endswith(".h")][0]
+                            h_sel = [t for fn, t in part.items() if fn.endswith(".h")][0]
+                            E.oblige("%s/declarations-unchanged" % tag, z3.BoolVal(decl(h_all) == decl(h_sel)))
+                        else:
+                            # what is left of the file without function definitions and comment lines: package, imports, types, constants
+                            strip = lambda t: [l for l in _re.sub(r"^func [^\n]*\{(?:[^\n]*\}$|\n.*?^\})\n?", "", t, flags=_re.M | _re.S).splitlines()
+                                               if l.strip() and not l.strip().startswith("//")]
+                            E.oblige("%s/declarations-unchanged" % tag, z3.BoolVal(strip(src) == strip(psrc)))
+            E.explore(body)
+            res.obls, res.paths = E.obls, E.completed_paths
+            if not E.obls:
+                res.error = "no obligations generated"
+        except Exception as e:
+            res.error = "engine exception: %r\n%s" % (e, traceback.format_exc(limit=12))
+        return res
+
+    p = ProofDef(pid=pid, func="generated %s -O / -O -F" % lang, file=RENDER_C, props=["C17"], run=run, scope="program",
+                 doc="the encoder / decoder of a selected message is textually the one generated without -F; unselected messages get none; "
+                     "every other function and every declaration is unchanged (each rendering through the command line in a fresh process)")
+    p.tier = "quick"
+    register(p)
+
+
+for _u in family.composite_units():
+    if "traditional" in _u.tags and _u.name not in ("composite:enum-default-nonzero", "composite:wide") and len(
+            [m for m in traditional(_u)[0].defs if isinstance(m, L.Message)]) >= 2:
+        _mk_filter(_u, "c")
+        _mk_filter(_u, "go")
